@@ -6,7 +6,7 @@
 From Coq Require Import ZArith List.
 From BS Require Import Model.Base Model.Num Model.LibVal Gen.ArgSpecs Model.LibSeq Proofs.C15.
 From BS Require Import Proofs.C15spec Proofs.C15histd Proofs.C15histe Proofs.C15histf.
-From BS Require Import Proofs.C15spec2 Proofs.C15str Proofs.C15strb Proofs.C15histg Proofs.C15aeq Proofs.C15histi Proofs.C15histj Proofs.C15histk Proofs.C15spec3 Proofs.C15histl.
+From BS Require Import Proofs.C15spec2 Proofs.C15str Proofs.C15strb Proofs.C15histg Proofs.C15aeq Proofs.C15histi Proofs.C15histj Proofs.C15histk Proofs.C15spec3 Proofs.C15histl Proofs.C15histm.
 From Coq Require Import SpecFloat.
 Import ListNotations.
 Local Open Scope Z_scope.
@@ -481,6 +481,16 @@ Theorem C15_history_with_search_checked_partial : forall ops s, forallb op_in_OP
 Proof. exact history_search_checked. Qed.
 Print Assumptions C15_history_with_search_checked_partial.
 
+(* WELL-FORMED, fuel-safe histories of OPS_X (all 37 modelled functions) never get stuck.  `wf_hist_x` = `wf_hist` with OPS_X, and the
+   needle of a search is not a function (the callback form is outside the model).  (Full statement: without `fuel_safe`; false, see
+   C15_cyclic_search_gives_up.) *)
+Theorem C15_history_results_with_search_partial : forall ops e h, wf_state (e, h) = true -> wf_hist_x ops (e, h) = true ->
+  fuel_safe ops (Some (e, h)) = true ->
+  exists rs h', run_ops ops (e, h) = Some (e ++ rs, h') /\ runR (Some (e, abs h)) ops (Some (e ++ rs, abs h'))
+                /\ length rs = length ops /\ wf_state (e ++ rs, h') = true /\ (length h <= length h')%nat.
+Proof. exact history_results_x. Qed.
+Print Assumptions C15_history_results_with_search_partial.
+
 (* non-vacuity 1: 21 statements: split a string, push, search strings in the split result (first / from an index / last / last
    up to a float-spelled index / absent), DEEP searches (a copy of an array found inside another array; a copy of an object found
    by arrayLastIndexOf), slice, trim, failures (index >= length, wrong type, inf index).  Model by vm_compute; no call answers
@@ -515,7 +525,8 @@ Definition c15x_heap : heap :=
   [CArr [VStr (U "b"); VStr (U "a"); VStr (U "b"); VStr (U "c")]; CArr [VStr (U "a"); VStr (U "z")]; CArr [VArr 1%nat; VNum (NInt 5)];
    CArr [VStr (U "a"); VStr (U "z")]; CObj [(U "k", VArr 1%nat)]; CObj [(U "k", VArr 1%nat)]; CArr [VObj 4%nat]].
 Example C15_history_with_search_nonvacuous :
-  forallb op_in_OPS_x c15_hist_x = true /\ fuel_safe c15_hist_x (Some ([], [])) = true /\ no_fuel c15_hist_x (Some ([], []))
+  forallb op_in_OPS_x c15_hist_x = true /\ wf_hist_x c15_hist_x ([], []) = true
+  /\ fuel_safe c15_hist_x (Some ([], [])) = true /\ no_fuel c15_hist_x (Some ([], []))
   /\ run_ops c15_hist_x ([], []) = Some (c15x_env, c15x_heap)
   /\ runR (Some ([], abs [])) c15_hist_x (Some (c15x_env, abs c15x_heap))
   /\ forall st, runR (Some ([], abs [])) c15_hist_x st -> st = Some (c15x_env, abs c15x_heap).
@@ -526,7 +537,7 @@ Proof.
   assert (R : run_ops c15_hist_x ([], []) = Some (c15x_env, c15x_heap)) by (vm_compute; reflexivity).
   assert (H : runR (Some ([], abs [])) c15_hist_x (Some (c15x_env, abs c15x_heap))).
   { vm_cast_no_check (history_search c15_hist_x (Some ([], [])) O NF). }
-  split; [exact O|]. split; [exact FS|]. split; [exact NF|]. split; [exact R|]. split; [exact H|].
+  split; [exact O|]. split; [vm_compute; reflexivity|]. split; [exact FS|]. split; [exact NF|]. split; [exact R|]. split; [exact H|].
   intros st H'. exact (runR_det _ _ _ _ H' H).
 Qed.
 Print Assumptions C15_history_with_search_nonvacuous.
